@@ -218,9 +218,13 @@ def _multiline(data, j, res, word):
         k = data.find(b"\n", j)
         if k < 0:
             return None
+        c0 = j
         j = k
         if data[j - 1] == 13:
             j -= 1
+        if b"\r" in data[c0:j]:
+            # same as for a hash comment elsewhere: whether a bare CR ends it is not pinned down
+            res.unspec.append((c0, "CR inside hash comment"))
     # now need line break
     if j < n and data[j] == 10:
         j += 1
